@@ -3,6 +3,10 @@
 
 PLAN = {
     "C01": [dict(test="TestC01", quick=(2500, 16), thorough=(60000, 16), timeout_thorough=7200)],
+    "C02": [
+        dict(test="TestC02", quick=(25000, 8), thorough=(600000, 8), timeout_thorough=7200),
+        dict(test="FuzzC02", kind="fuzz", fuzztime=240),
+    ],
     "C03": [dict(test="TestC03", quick=(2500, 16), thorough=(60000, 16), timeout_thorough=7200)],
     "C04": [dict(test="TestC04", quick=(2500, 16), thorough=(60000, 16), timeout_thorough=7200)],
     "C05": [dict(test="TestC05", quick=(1500, 16), thorough=(30000, 16), timeout_thorough=7200)],
@@ -23,12 +27,32 @@ PLAN = {
     "C12": [
         dict(test="TestC12N", quick=(4000, 8), thorough=(150000, 8), timeout_thorough=7200),
         dict(test="TestC12R", quick=(100, 8), thorough=(1500, 8), race=True, timeout=1500, timeout_thorough=7200),
+        dict(test="FuzzC12", kind="fuzz", fuzztime=300),
     ],
     "C13": [
         dict(test="TestC13R", quick=(120, 10), thorough=(2500, 8), race=True, timeout=1500, timeout_thorough=7200),
         dict(test="TestC13S", quick=(2000, 6), thorough=(40000, 8), timeout_thorough=7200),
     ],
     "C14": [dict(test="TestC14R", quick=(150, 16), thorough=(2500, 16), race=True, timeout=1500, timeout_thorough=7200)],
+    "C15": [
+        dict(test="TestC15Exhaustive", kind="plain", quick=(0, 1), thorough=(0, 1), timeout_thorough=3600),
+        dict(test="TestC15Registry", quick=(20000, 3), thorough=(400000, 4)),
+        dict(test="TestC15R", quick=(120, 12), thorough=(2500, 12), race=True, timeout=1500, timeout_thorough=7200),
+    ],
+    "C17": [
+        dict(test="TestC17Exhaustive", kind="plain", quick=(0, 1), thorough=(0, 1), timeout_thorough=3600),
+        dict(test="TestC17Random", quick=(15000, 8), thorough=(400000, 8)),
+    ],
+    "C19": [
+        dict(test="TestC19FormulaDense", kind="plain", quick=(0, 1), thorough=(0, 1)),
+        dict(test="TestC19Formula", quick=(30000, 2), thorough=(1000000, 4)),
+        dict(test="TestC19Trigger", quick=(25, 8), thorough=(600, 8), timeout=1500, timeout_thorough=7200),
+        dict(test="TestC19Node", quick=(8, 4), thorough=(150, 4), timeout=1500, timeout_thorough=7200),
+    ],
+    "C20": [
+        dict(test="TestC20", quick=(6000, 16), thorough=(200000, 16), timeout_thorough=7200),
+        dict(test="FuzzC20", kind="fuzz", fuzztime=180),
+    ],
     "C16": [dict(test="TestC16R", quick=(120, 16), thorough=(2000, 16), race=True, timeout=1500, timeout_thorough=7200)],
     "C18": [
         dict(test="TestC18Dense", kind="plain", quick=(0, 1), thorough=(0, 1)),
@@ -47,6 +71,7 @@ SIM_RULE = ("cases = generated executions of the deterministic cluster simulator
 
 RULES = {
     "C01": SIM_RULE + "Oracle: <=1 block hash per height over correct nodes' commit callbacks. Non-trivial = >=1 correct commit AND (a view > 0 was entered OR a Byzantine/outsider message was stored by a correct node). Distinct = hash of (config, abstracted action trace).",
+    "C02": "cases = (committee 4..10 with weights incl. 0 and > 2^53, block, mode strict/soft, previous proof nil/genuine/wrong, genuine COMMIT certificate whose signer set is cut exactly at Q, Q-1, F+1, F, all or random, then 0..3 mutations: duplicate signer, outsider padding/replacement with valid signatures, header type tag, signature garbage / over the PREPARE-tagged header / other view / other key, instance, height, hash other/empty, seed signature empty/garbage/other height/other seed, wrong previous proof, nil block, byte-level surgery, dropped signer, flipped mode, random bytes). Oracle: ValidateBlockConsensus returns nil => the independent reference validator accepts; no panic; GetMemberIdsFromBlockProof never panics and returns exactly the signers of accepted proofs. Non-trivial = parses as a COMMIT certificate for the right instance and height (verdict hinges on signer set / one mutation). Distinct = the whole case. accept rate on reference-valid proofs is reported in classes.",
     "C03": SIM_RULE + "Oracle at every correct commit callback: strict ValidateBlockConsensus on another correct node with the committing term's prev block/proof returns nil, the reference validator accepts, the block satisfies the proof's hash. Non-trivial = at commit time the committing node's commit log held a COMMIT from a Byzantine member/outsider or from another view, or the commit is in a view > 0.",
     "C04": SIM_RULE + "Oracle at every correct commit: block height = h, block valid flag set (a block every correct validator rejects is never committed), block satisfies the certified hash, a PREPREPARE for that hash and view signed by the view's leader exists in the history, and some correct member's ValidateBlockProposal approved it or a correct member proposed it. Non-trivial = a consumer-invalid proposal was delivered to a correct node and some correct node committed.",
     "C10": SIM_RULE + "Oracle over each correct node's send stream joined with its reference-validated inbox: <=1 proposal/PREPARE/COMMIT hash per (h,v), PREPARE only for a delivered proposal of that view's leader and never by the leader, COMMIT only with a prepared certificate or commit quorum for exactly (v,hash), VIEW_CHANGE views strictly increasing, no PREPREPARE/PREPARE below the current view. Non-trivial = two different proposals for one (h,v) were delivered, or a duplicated/replayed delivery, or a commit quorum before being prepared.",
@@ -55,6 +80,14 @@ RULES = {
     "C08": "Engine N as C07 with candidates PREPREPARE/PREPARE/COMMIT/VIEW_CHANGE; oracle: any effect (Store* true, send, view move, commit) implies ref.mayInfluence (signature under the claimed sender's key, sender in committee, this instance and height, header tag = envelope, role fits, share valid, not stale, proof valid). Engine S: same oracle on every delivery of generated cluster executions. Non-trivial = exactly one mutation, or accepted control (N); a Byzantine/outsider message was stored (S).",
     "C09": "Engine N: node brought to prepared in generated views then timed out (voter), or fed 1..8 generated VIEW_CHANGE candidates (with genuine proofs of different views, mutated variants: block missing/other, proof dropped/forged/below quorum...) as leader (collector); engine S: every VIEW_CHANGE / NEW_VIEW a correct node emits in generated cluster executions. Oracle: VIEW_CHANGE sent while prepared carries a reference-valid proof of the highest prepared view + matching block; NEW_VIEW embeds exactly the stored votes, each still verifying, proposes the block of the highest-view valid proof, fresh proposal iff no vote carries a proof. Non-trivial = vote sent while prepared, or NEW_VIEW emitted with a proof among its votes (S); exactly one mutation or accepted control (N).",
     "C11": SIM_RULE + "Oracle at every delivery of a message a correct node sent to a correct peer in a matching state (same height and chain; NEW_VIEW: peer view <= v and no proposal stored for v; VIEW_CHANGE: peer leads v and view <= v; PREPARE: peer view <= v; COMMIT: any): the accepting effect happens (adopted+stored+PREPARE / Store* call). Non-trivial = judged delivery in a run where some correct node had stored a Byzantine/outsider message before.",
+    "C12": "Layer 1 (engine N, in process): a fresh real node in a generated state receives (a) raw content bytes: random, or a valid serialised message of any of the five kinds with 1..3 byte operations (truncate, bit flip, 32-bit word set to 0/1/2^31/2^32-1.., insert, drop); (b) structurally valid messages with 1..3 field mutations incl. views/heights 2^63, 2^64-1, empty ids/signatures, nil blocks, proofs without preparers, NEW_VIEW without votes. Oracle: neither the main-loop step nor the worker step panics, and afterwards the node commits a scripted valid round and reacts to an election trigger. Layer 2 (engine R): the same kinds of hostile bytes through HandleConsensusMessage of the real two-goroutine runtime, then scripted rounds: no 'recovered panic' in the supervisor log, the follow-up round commits (quiescence-judged). Thorough adds native fuzzing of layer 1. Non-trivial = the input parses as one of the five message kinds or is a structured message with an extreme field. Distinct = the whole case.",
+    "C13": "Engine R: generated op sequences (scripted rounds of the other members, election triggers for the current or stale positions, UpdateState with older/equal/newer heights and bursts, SPI gates hold/ctx on propose/validate/committee/commit, failing commit callbacks, committee lookup failing once) on the real runtime with a 50us (height,view) poller; engine S: generated cluster executions with syncs. Oracle (pure history invariants, true under every interleaving): commit-callback heights strictly increase, new-round heights strictly increase, (h,v) samples never decrease lexicographically, no round <= a committed height, election registrations lexicographically non-decreasing with view 0 first on a new height. Non-trivial = a sync/trigger was issued while an SPI gate was closed, or a commit callback failed (R); a sync happened or >= 2 heights completed (S).",
+    "C14": "Engine R op sequences emphasising UpdateState (older/equal/newer, bursts without yielding, 'settle, stale sync, settle' triples) interleaved with rounds and SPI gates. Oracle: UpdateState returns within its deadline; for every call that returned nil with block height >= the height being decided, the node is above that height at final quiescence; rounds not preceded by the node's own successful commit have canBeFirstLeader=false and no view-0 PREPREPARE above height 1; a stale sync between two settled points changes nothing (sends, callbacks, (h,v)). Non-trivial = a burst, or a sync while a gate was closed.",
+    "C15": "(a) registry laws: all sequences of length 3 (thorough 4) over {For,CancelOlderThan}x{h 0..2}x{v 0,1,2,2^64-1}+Shutdown exhaustively, random sequences up to 60 ops, against a reference model (a context is Done iff a later CancelOlderThan above it or Shutdown; For errs iff shut down or below the watermark; never hands out a cancelled context). (b) engine R: SPI calls (RequestNewBlockProposal, ValidateBlockProposal, RequestOrderedCommittee, commit callback) blocked on their context or held by the harness while triggers (current / stale), syncs (lower/equal/higher) and shutdown are generated. Oracle: a context cancellation has a cause (trigger/sync/shutdown about that or a later position); after a leave-event and quiescence the call is not still blocked; everything is released by shutdown; a block returned under a cancelled context is never broadcast. (c) engine S monitor: SPI entered with a live context. Non-trivial = >= 2 cancels in a registry sequence; a non-pass gate policy was exercised (R).",
+    "C16": "Engine R op sequences with the fake or the real timer-based election trigger (base 2..12 ms), SPI gates, triggers, syncs; cancellation of the run context at a generated op index, then API calls with a cancelled context. Oracle: WaitUntilShutdown returns within 10 s; no commit/new-round callback and no send after it returned during a grace period > 2x the armed timeout; goroutine diff (stacks with a lean-helix-go/govnr frame) empty after settle retries; HandleConsensusMessage/UpdateState/ValidateBlockConsensus with a cancelled context return. Non-trivial = an SPI gate was closed when the context was cancelled.",
+    "C17": "cases = sequences of recv(height cur-2..cur+4, instance mine/other, sender me/other) and advance(1..3) incl. re-entrant advance from inside the handler's k-th delivery (what commit does during a cache drain), on the real RawMessageFilter with a real State: all sequences of length 5 (thorough 6) over a 12-letter alphabet exhaustively + random up to 80 ops. Oracle (reference model): every delivery goes to the handler of its own height, my instance, not my own message; never twice; in receive order per height; current-height messages delivered at once; a cached message of H is delivered at the start of H if no message for a higher height was cached before (unless an earlier-received message of H completed H during the drain). Non-trivial = a sequence with an advance and a future-height receive.",
+    "C19": "(a) formula: bases {1ns,1us,1ms,4s,1h,2^62ns,random<=24h} x views 0..200 dense, powers of two +-1, 2^64-1-k, random: CalcTimeout > 0, = base*2^v exactly when that fits in int64, otherwise >= every lower view's timeout (saturating), non-decreasing. (b) real TimerBasedElectionTrigger (base 2..5 ms, views 0..3): generated Register/Stop/sleep (incl. +-1 ms around the expiry)/reader on-slow-off sequences; history oracle: every trigger read was armed, <= 1 per arming, not before t_before_register + CalcTimeout(v); an armed un-superseded registration delivers within timeout+400ms (a miss counts only three runs in a row). Full node on the real timer left alone: every view lasts >= its timeout (1.5 ms measuring slack), views keep advancing. Non-trivial = base*2^v >= 2^62 (a); a stop/register/sleep placed within 1 ms of an expiry, or a node run (b).",
+    "C20": "cases = messages of all five kinds and block proofs built only through messagesfactory / GenerateLeanHelixBlockProof with the registry key manager: instance/height/view over the 64-bit range (boundary classes), ids / hashes of length 0..256 with arbitrary bytes, 0..20 preparers, 0..20 votes each with optional proof, block present or nil. Oracle: ToConsensusRawMessage -> ToConsensusMessage gives the same type, fields, bytes; nested proofs and votes equal field by field and in number; every signature verifies over the re-read bytes (header Raw(), embedded votes, proof references, proof.BlockRef().Raw()); parsing a copy twice and parsing BuilderFromRaw output give identical accessors. Non-trivial = a variable-length field of length 0 or >= 128, or >= 2 nested votes/preparers, or a 64-bit field >= 2^63.",
     "C18": "cases = (committee size n in 4..64, view): dense 0..4n, powers of two +-1, neighbourhoods of 2^31, 2^32, 2^63, 2^64-1-k, random 64-bit; oracle VerifLeaderOf(view, committee) == committee[view mod n] in uint64, no panic, and every window of n consecutive views has n distinct leaders. Non-trivial = view >= 2^31 or within n of 0 or a multiple of n. Distinct = (n, view).",
     "C06": "cases = (weight vector, id list A, id list B): exhaustive small vectors x all subset pairs, random vectors n<=16 with weight classes up to 2^64, and boundary-shaped committees [F,W-F],[F+1,W-F-1],[F+1,F+1,W-2F-2],[F,F,W-2F],[F,1,W-F-1] for W around 7..2^64; id lists include duplicates and non-members. Non-trivial = total weight > 2^53 or weight(A) within 1 of f or Q. Distinct = distinct (weights, A, B).",
 }
@@ -63,6 +96,10 @@ ASSUMPTIONS = {
     "*": [
         "trusted base: the fakes in /verif/fakes (HMAC key registry with unforgeable signatures, block/validator model, membership, recording storage wrapper, virtual election scheduler), the reference model in /verif/ref, the Go runtime and pgregory.net/rapid",
         "exploration only: 'held on everything explored', never absence of violations",
+    ],
+    "C02": [
+        dict(test="TestC02", quick=(25000, 8), thorough=(600000, 8), timeout_thorough=7200),
+        dict(test="FuzzC02", kind="fuzz", fuzztime=240),
     ],
     "C03": [dict(test="TestC03", quick=(2500, 16), thorough=(60000, 16), timeout_thorough=7200)],
     "C04": [dict(test="TestC04", quick=(2500, 16), thorough=(60000, 16), timeout_thorough=7200)],
@@ -84,12 +121,32 @@ ASSUMPTIONS = {
     "C12": [
         dict(test="TestC12N", quick=(4000, 8), thorough=(150000, 8), timeout_thorough=7200),
         dict(test="TestC12R", quick=(100, 8), thorough=(1500, 8), race=True, timeout=1500, timeout_thorough=7200),
+        dict(test="FuzzC12", kind="fuzz", fuzztime=300),
     ],
     "C13": [
         dict(test="TestC13R", quick=(120, 10), thorough=(2500, 8), race=True, timeout=1500, timeout_thorough=7200),
         dict(test="TestC13S", quick=(2000, 6), thorough=(40000, 8), timeout_thorough=7200),
     ],
     "C14": [dict(test="TestC14R", quick=(150, 16), thorough=(2500, 16), race=True, timeout=1500, timeout_thorough=7200)],
+    "C15": [
+        dict(test="TestC15Exhaustive", kind="plain", quick=(0, 1), thorough=(0, 1), timeout_thorough=3600),
+        dict(test="TestC15Registry", quick=(20000, 3), thorough=(400000, 4)),
+        dict(test="TestC15R", quick=(120, 12), thorough=(2500, 12), race=True, timeout=1500, timeout_thorough=7200),
+    ],
+    "C17": [
+        dict(test="TestC17Exhaustive", kind="plain", quick=(0, 1), thorough=(0, 1), timeout_thorough=3600),
+        dict(test="TestC17Random", quick=(15000, 8), thorough=(400000, 8)),
+    ],
+    "C19": [
+        dict(test="TestC19FormulaDense", kind="plain", quick=(0, 1), thorough=(0, 1)),
+        dict(test="TestC19Formula", quick=(30000, 2), thorough=(1000000, 4)),
+        dict(test="TestC19Trigger", quick=(25, 8), thorough=(600, 8), timeout=1500, timeout_thorough=7200),
+        dict(test="TestC19Node", quick=(8, 4), thorough=(150, 4), timeout=1500, timeout_thorough=7200),
+    ],
+    "C20": [
+        dict(test="TestC20", quick=(6000, 16), thorough=(200000, 16), timeout_thorough=7200),
+        dict(test="FuzzC20", kind="fuzz", fuzztime=180),
+    ],
     "C16": [dict(test="TestC16R", quick=(120, 16), thorough=(2000, 16), race=True, timeout=1500, timeout_thorough=7200)],
     "C18": [
         dict(test="TestC18Dense", kind="plain", quick=(0, 1), thorough=(0, 1)),
